@@ -42,18 +42,17 @@ def hsetnx (h : H) (k v : Bytes) : H × Bool :=
 
 def hstrlen (h : H) (k : Bytes) : Int := ((AList.get? h k).getD []).length
 
-/-- `HScan(cursor, match, count)`: the scan visits fields in order, stops when `i ≥ cursor+count`
-    (after visiting at least one), returns the number visited and the matched fields at
-    positions ≥ cursor. -/
-def hscanAux (pat : Bytes) (cursor count : Int) : List (Bytes × Bytes) → Int → List (Bytes × Bytes) → Int × List (Bytes × Bytes)
-  | [], i, acc => (i, acc.reverse)
-  | (k, v) :: rest, i, acc =>
-    let acc := if Glob.matched pat k ∧ i ≥ cursor then (k, v) :: acc else acc
-    let i := i + 1
-    if i < cursor + count then hscanAux pat cursor count rest i acc else (i, acc.reverse)
+/-- positional scan shared by HSCAN / SSCAN / ZSCAN: skip `cursor` elements, visit up to `count`
+    (count ≤ 0: all the remaining ones), keep those whose name matches; returns the position to
+    continue from (= number of elements skipped + visited) and the kept ones -/
+def posScan {α : Type} (name : α → Bytes) (xs : List α) (cursor : Int) (pat : Bytes) (count : Int) : Int × List α :=
+  let c : Nat := if cursor < 0 then 0 else cursor.toNat
+  let rest := xs.drop c
+  let seen := if count > 0 then rest.take count.toNat else rest
+  (((min c xs.length + seen.length : Nat) : Int), seen.filter fun x => Glob.matched pat (name x))
 
 def hscan (h : H) (cursor : Int) (pat : Bytes) (count : Int) : Int × List (Bytes × Bytes) :=
-  hscanAux pat cursor count h 0 []
+  posScan (·.1) h cursor pat count
 end DsHash
 
 namespace DsSet
@@ -84,15 +83,9 @@ def sunion (s : S) (others : List S) : List Bytes :=
   let extra := others.flatMap fun o => (members o).filter fun m => !(mem s m)
   members s ++ extra.foldl (fun acc m => if acc.contains m then acc else acc ++ [m]) []
 
-/-- `SScan`: ignores the cursor except for the termination test -/
-def sscan (s : S) (cursor : Int) (pat : Bytes) (count : Int) : Int × Option (List Bytes) :=
-  if cursor ≥ s.length then (0, none) else
-  let rec go : List Bytes → List Bytes → List Bytes
-    | [], acc => acc.reverse
-    | m :: rest, acc =>
-      if count > 0 ∧ (acc.length : Int) ≥ count then acc.reverse
-      else go rest (if Glob.matched pat m then m :: acc else acc)
-  (cursor, some (go (members s) []))
+/-- `SScan(cursor, match, count)` -/
+def sscan (s : S) (cursor : Int) (pat : Bytes) (count : Int) : Int × List Bytes :=
+  DsHash.posScan id (members s) cursor pat count
 
 end DsSet
 end NodisVerif
